@@ -71,6 +71,14 @@ type activeRequest struct {
 	cancel  context.CancelFunc
 }
 
+// completion is what a request's goroutine hands back to the serve loop:
+// the response together with the request it answers, so that the loop can
+// tell it from a later request using the same tag.
+type completion struct {
+	request  *Fcall
+	response *Fcall
+}
+
 type reqMap map[Tag]*activeRequest
 
 func (tags reqMap) remove(t Tag) bool {
@@ -88,9 +96,9 @@ func (tags reqMap) remove(t Tag) bool {
 func (c *conn) serve() error {
 	tags := reqMap{} // active requests
 
-	requests := make(chan *Fcall)  // sync, read-limited
-	responses := make(chan *Fcall) // sync, goroutine consumed
-	completed := make(chan *Fcall) // sync, send in goroutine per request
+	requests := make(chan *Fcall)      // sync, read-limited
+	responses := make(chan *Fcall)     // sync, goroutine consumed
+	completed := make(chan completion) // sync, send in goroutine per request
 	// completed is an internal channel used
 	// in-between completion of the server callback and
 	// responses (which are to be sent to the client)
@@ -162,7 +170,7 @@ func (c *conn) serve() error {
 					}
 
 					select {
-					case completed <- resp:
+					case completed <- completion{req, resp}:
 					case <-ctx.Done():
 						return
 					case <-c.closed:
@@ -170,11 +178,13 @@ func (c *conn) serve() error {
 					}
 				}(ctx, req)
 			}
-		case resp := <-completed:
+		case done := <-completed:
 			// only responses that flip the tag state traverse this section.
+			resp := done.response
 			active, ok := tags[resp.Tag]
-			if !ok {
-				// The tag is no longer active. Likely a flushed message.
+			if !ok || active.request != done.request {
+				// The request is no longer active. Likely a flushed message
+				// (whose tag may already have been reused by a new request).
 				continue
 			}
 
